@@ -245,7 +245,7 @@ fn c11_k_year_next() {
 // ---- C12: clock arithmetic ------------------------------------------------------------------------
 // (SolarTime::next and SolarTime::subtract are Verus obligations: verus/c12_time_next.rs; the Kani form of the
 //  carry arithmetic did not finish in 14 min - 64-bit division circuits)
-static mut REC_SUB: isize = 0;
+static mut REC_SUB: isize = -7609;
 fn stub_day_subtract(_a: &SolarDay, _b: SolarDay) -> isize { let v: isize = kani::any(); kani::assume(v >= -4000000 && v <= 4000000); unsafe { REC_SUB = v; } v }
 #[kani::proof]
 #[kani::stub(alloc::fmt::format, stub_format)]
@@ -352,4 +352,10 @@ fn c13_k_month_days() {
   let want = if y == 1582 && m == 10 && i >= 4 { i + 11 } else { i + 1 };
   assert!(d.get_day() == want, "days in order, none skipped");
   kani::cover!(y == 1582 && m == 10 && i == 4, "month_days reachable (1582-10-15)");
+}
+
+
+// constructor for harnesses in other modules: a solar term object with the given (year, index) over a table of empty names
+pub fn mk_term(year: isize, index: isize, cursory: f64) -> SolarTerm {
+  SolarTerm { parent: LoopTyme::from_index(crate::tyme::sixtycycle::verif_k::empties(24), index), year, cursory_julian_day: cursory }
 }
